@@ -315,6 +315,10 @@ type delivery struct {
 	viaFile bool
 	outFile bool
 	stale   bool // the -o path already holds a longer file from an earlier run
+	// other places than grammar.peg and out/parser.go (kind "paths")
+	inName string
+	outArg string
+	dirs   []string
 }
 
 var staleOutput = []byte(strings.Repeat("}}}} stale content of an earlier, longer output {{{{\n", 12000))
@@ -325,12 +329,21 @@ func makeCase(id string, in toolInput, d delivery, f simos.Faults, mode int, mse
 		c.Mode = "rebuild"
 	}
 	c.Args = append(c.Args, in.Flags...)
+	outArg, inName := "out/parser.go", "grammar.peg"
+	if d.outArg != "" {
+		outArg = d.outArg
+	}
+	if d.inName != "" {
+		inName = d.inName
+	}
+	c.Dirs = d.dirs
 	if d.outFile {
-		c.Args = append(c.Args, "-o", "out/parser.go")
+		c.Args = append(c.Args, "-o", outArg)
 	}
 	if d.viaFile {
-		c.Files = map[string][]byte{"grammar.peg": in.Grammar}
-		c.Args = append(c.Args, "grammar.peg")
+		c.Files = map[string][]byte{inName: in.Grammar}
+		c.Args = append(c.Args, inName)
+		c.GrammarFile = inName
 	} else {
 		c.Stdin = in.Grammar
 	}
@@ -338,7 +351,7 @@ func makeCase(id string, in toolInput, d delivery, f simos.Faults, mode int, mse
 		if c.Files == nil {
 			c.Files = map[string][]byte{}
 		}
-		c.Files["out/parser.go"] = staleOutput
+		c.Files[outArg] = staleOutput
 	}
 	if n := len(in.Grammar); n > 64<<10 {
 		// pigeon's own front-end needs seconds per megabyte (natively about six
